@@ -5,11 +5,11 @@ package dmodel
 // no value is a non-canonical spelling of another (so that the DSL graph and the HCL graph of one model
 // are the same schema).
 
-// T is a shorthand constructor used by the pool: T(d).Int(), T(d).Str(20), …
-type typeSet struct{ d Dialect }
+// TypeSet holds the type constructors of one dialect: T(d).Int(), T(d).Str(20), …
+type TypeSet struct{ d Dialect }
 
 // T returns the type constructors of a dialect.
-func T(d Dialect) typeSet { return typeSet{d} }
+func T(d Dialect) TypeSet { return TypeSet{d} }
 
 func pick(d Dialect, my, pg, lite Type) Type {
 	switch d {
@@ -22,50 +22,50 @@ func pick(d Dialect, my, pg, lite Type) Type {
 }
 
 // Int is the dialect's plain 32-bit integer.
-func (s typeSet) Int() Type {
+func (s TypeSet) Int() Type {
 	return pick(s.d, Type{Class: CInt, T: "int"}, Type{Class: CInt, T: "integer"}, Type{Class: CInt, T: "integer"})
 }
 
 // BigInt is the dialect's 64-bit integer (SQLite: integer).
-func (s typeSet) BigInt() Type {
+func (s TypeSet) BigInt() Type {
 	return pick(s.d, Type{Class: CInt, T: "bigint"}, Type{Class: CInt, T: "bigint"}, Type{Class: CInt, T: "integer"})
 }
 
 // Str is a bounded string (SQLite: text).
-func (s typeSet) Str(n int) Type {
+func (s TypeSet) Str(n int) Type {
 	return pick(s.d, Type{Class: CString, T: "varchar", Size: n}, Type{Class: CString, T: "character varying", Size: n}, Type{Class: CString, T: "text"})
 }
 
 // Text is the unbounded string.
-func (s typeSet) Text() Type { return Type{Class: CString, T: "text"} }
+func (s TypeSet) Text() Type { return Type{Class: CString, T: "text"} }
 
 // Bool is the boolean type.
-func (s typeSet) Bool() Type {
+func (s TypeSet) Bool() Type {
 	return pick(s.d, Type{Class: CBool, T: "bool"}, Type{Class: CBool, T: "boolean"}, Type{Class: CBool, T: "boolean"})
 }
 
 // Dec is a fixed point number (SQLite: numeric without parameters).
-func (s typeSet) Dec(p, sc int) Type {
+func (s TypeSet) Dec(p, sc int) Type {
 	return pick(s.d, Type{Class: CDecimal, T: "decimal", Prec: p, Scale: sc}, Type{Class: CDecimal, T: "numeric", Prec: p, Scale: sc}, Type{Class: CDecimal, T: "numeric"})
 }
 
 // Float is the double precision float (SQLite: real).
-func (s typeSet) Float() Type {
+func (s TypeSet) Float() Type {
 	return pick(s.d, Type{Class: CFloat, T: "double"}, Type{Class: CFloat, T: "double precision"}, Type{Class: CFloat, T: "real"})
 }
 
 // Time is the date-time type.
-func (s typeSet) Time() Type {
+func (s TypeSet) Time() Type {
 	return pick(s.d, Type{Class: CTime, T: "datetime"}, Type{Class: CTime, T: "timestamp with time zone"}, Type{Class: CTime, T: "datetime"})
 }
 
 // Blob is the binary type.
-func (s typeSet) Blob() Type {
+func (s TypeSet) Blob() Type {
 	return pick(s.d, Type{Class: CBinary, T: "blob"}, Type{Class: CBinary, T: "bytea"}, Type{Class: CBinary, T: "blob"})
 }
 
 // JSON is the JSON type.
-func (s typeSet) JSON() Type {
+func (s TypeSet) JSON() Type {
 	return pick(s.d, Type{Class: CJSON, T: "json"}, Type{Class: CJSON, T: "jsonb"}, Type{Class: CJSON, T: "json"})
 }
 
